@@ -87,6 +87,9 @@ pub enum Data {
     ReportsOtherVersion,
     /// VerProbe only: the new code keeps reporting the old version
     ReportsOldVersion,
+    /// VerProbe only: the new code migrates fine but its `version` entry point fails (true) / returns a number instead
+    /// of a string (false): the requested version cannot be confirmed
+    VersionUnreadableAfterwards(bool),
 }
 
 #[derive(Clone, Debug, Serialize, Deserialize)]
@@ -234,7 +237,7 @@ impl Property for C15 {
         for transfer_first in [false, true] {
             for auth in AUTHS {
                 for req in [Req::Same, Req::Next, Req::Wrong, Req::NextExtendsCurrent, Req::PrefixOfReported] {
-                    for data in [Data::WellTyped, Data::IllTyped, Data::TooManyArgs, Data::Fails, Data::ReportsOtherVersion, Data::ReportsOldVersion] {
+                    for data in [Data::WellTyped, Data::IllTyped, Data::TooManyArgs, Data::Fails, Data::ReportsOtherVersion, Data::ReportsOldVersion, Data::VersionUnreadableAfterwards(true), Data::VersionUnreadableAfterwards(false)] {
                         v.push(Case::Upg { target: UT::VerProbe, req, auth, data, transfer_first, earlier_runs: false });
                         v.push(Case::Upg { target: UT::VerProbe, req, auth, data, transfer_first, earlier_runs: true });
                     }
@@ -414,7 +417,7 @@ impl Property for C15 {
                 // migration data
                 let applicable = match (target, data) {
                     (UT::VerProbe, _) => true,
-                    (_, Data::Fails | Data::ReportsOtherVersion | Data::ReportsOldVersion) => false,
+                    (_, Data::Fails | Data::ReportsOtherVersion | Data::ReportsOldVersion | Data::VersionUnreadableAfterwards(_)) => false,
                     _ => true,
                 };
                 let data = if applicable { *data } else { Data::WellTyped };
@@ -423,6 +426,8 @@ impl Property for C15 {
                         let reported = match (d, req) {
                             (Data::ReportsOtherVersion, _) => "7.7.7",
                             (Data::ReportsOldVersion, _) => cur_version,
+                            (Data::VersionUnreadableAfterwards(true), _) => "",
+                            (Data::VersionUnreadableAfterwards(false), _) => "#",
                             (_, Req::PrefixOfReported) => "1.1.0",
                             _ => requested,
                         };
@@ -441,7 +446,7 @@ impl Property for C15 {
                 };
                 // what would happen with full authority
                 let version_after_if_migrated: Option<&str> = match (target, data) {
-                    (_, Data::IllTyped | Data::TooManyArgs | Data::Fails) => None,
+                    (_, Data::IllTyped | Data::TooManyArgs | Data::Fails | Data::VersionUnreadableAfterwards(_)) => None,
                     (UT::VerProbe, Data::ReportsOtherVersion) => Some("7.7.7"),
                     (UT::VerProbe, Data::ReportsOldVersion) => Some(cur_version),
                     (UT::VerProbe, _) if *req == Req::PrefixOfReported => Some("1.1.0"),
